@@ -147,13 +147,12 @@ func main() {
 	fmt.Println("  InsertPagesFile after -p 1:", api.InsertPagesFile(mid, out, []string{"1"}, false, nil, conf()))
 	show("output", out)
 
-	fmt.Println("R5  CollectFile/TrimFile/RemovePagesFile on a document with a multi-level /Dests name tree: the output's /Dests tree has a dangling /Kids reference (pdfcpu's own ValidateFile rejects it; every following operation fails)")
-	for _, spec := range []pdfgen.DocSpec{{Seed: 1, Pages: 5, Dests: 8, NameTreeLeafMax: 2}, {Seed: 2, Pages: 4, Dests: 12, NameTreeLeafMax: 3}} {
-		os.WriteFile(in, pdfgen.Build(spec).Bytes, 0o644)
-		os.Remove(out)
-		fmt.Printf("  pdfgen{Seed:%d Pages:%d Dests:%d LeafMax:%d} ValidateFile(input): %v\n", spec.Seed, spec.Pages, spec.Dests, spec.NameTreeLeafMax, api.ValidateFile(in, conf()))
-		fmt.Println("  CollectFile -p l,1:", api.CollectFile(in, out, []string{"l", "1"}, conf()))
-		fmt.Println("  ValidateFile(output):", api.ValidateFile(out, conf()))
-		fmt.Println("  RotateFile(output):", api.RotateFile(out, filepath.Join(dir, "out2.pdf"), 90, []string{"1"}, conf()))
-	}
+	fmt.Println("R5  CollectFile/TrimFile/RemovePagesFile dropping every named destination: the output's /Dests root keeps a stale /Kids entry (dangling reference); pdfcpu's own ValidateFile rejects the file and every following operation fails")
+	spec := pdfgen.DocSpec{Seed: 1, Pages: 3, Dests: 3, NameTreeLeafMax: 1}
+	os.WriteFile(in, pdfgen.Build(spec).Bytes, 0o644)
+	os.Remove(out)
+	fmt.Printf("  pdfgen{Seed:%d Pages:%d Dests:%d LeafMax:%d} ValidateFile(input): %v\n", spec.Seed, spec.Pages, spec.Dests, spec.NameTreeLeafMax, api.ValidateFile(in, conf()))
+	fmt.Println("  CollectFile -p 1:", api.CollectFile(in, out, []string{"1"}, conf()))
+	fmt.Println("  ValidateFile(output):", api.ValidateFile(out, conf()))
+	fmt.Println("  RotateFile(output):", api.RotateFile(out, filepath.Join(dir, "out2.pdf"), 90, []string{"1"}, conf()))
 }
